@@ -142,6 +142,19 @@ def run(ctx):
     al = [bi for bi, t in f.calls(r"align\[Align\]$")]
     if not rs or not all(f.dominates(a, rs[0]) for a in al):
         r.violate("Lexer|reset-order", "Lexer::adjust_for_next_input resets lexeme_start before all ranges were aligned by it", f.loc())
+    # nothing but positions changes at a chunk boundary: per-tag state shared with the other state machine / the dispatcher
+    # (feedback directive, text type, flags) must survive it
+    for owner_fn, allowed in (("Lexer::adjust_for_next_input[StateMachine]", {"Lexer.lexeme_start"}), ("TagScanner::adjust_for_next_input[StateMachine]", {"TagScanner.tag_start"})):
+        g = mir.fn(owner_fn)
+        ws_ = set()
+        for b_ in g.blocks:
+            for st_ in b_["stmts"]:
+                if st_["k"] == "assign" and st_["p"]["proj"] and isinstance(st_["p"]["proj"][-1], dict) and "f" in st_["p"]["proj"][-1]:
+                    ws_.add(short_ty(st_["p"]["proj"][-1]["of"]) + "." + st_["p"]["proj"][-1]["f"])
+        r.inst(owner_fn.split("[")[0] + "|writes-only-positions", sample={"writes": sorted(ws_)})
+        extra = sorted(w for w in ws_ - allowed if not re.search(r"\.(start|end|pos|next_pos|\d+)$", w))
+        if extra:
+            r.violate(owner_fn.split("[")[0] + "|writes-only-positions", f"{owner_fn.split('[')[0]} also resets {extra} when a chunk ends: state that the tag scanner / dispatcher handed over for the tag being parsed (e.g. 'feedback already applied') is forgotten if a write boundary falls inside that tag, and the tree-builder feedback is applied twice", g.loc())
     # re-basing is unconditional: the ranges are live whenever the buffer is shifted (token_part_start is set before a token exists)
     from ..mirlib import guarding_branches as _gb2
     for owner_fn in ("Lexer::adjust_for_next_input[StateMachine]", "TagScanner::adjust_for_next_input[StateMachine]"):
@@ -258,6 +271,11 @@ def run(ctx):
     from .c09 import rule_consumed_count
     from ..smimpl import index as _index
     rule_consumed_count(ctx, _index(), rid="R02.8")
+
+    # ------------------------------------------------------------------ R02.9 (shared with C06 R06.3)
+    # "selector matching already ran for this tag" must survive a chunk boundary inside the tag
+    from .c06 import rule_hint_flag
+    rule_hint_flag(ctx, mir, rid="R02.9")
 
     ctx.not_decided += ["invariance of the concatenation of text chunks (decoder arithmetic)", "equality of outputs/events between two schedules as such (relation between runs)"]
     return ("Mechanism clauses of chunk-boundary invariance: end-of-chunk behaviour of all %d automaton states incl. every look-ahead prefix, "
